@@ -137,15 +137,21 @@ def opExpr (j : Json) : Except String Json := do
   | none => return val (.str "zero")
   | some a => return val (opAndMat a)
 
+/-- tolerances of `np.allclose` as the harness reads them from NumPy (exact values of the doubles) -/
+def parseTol (j : Json) : Except String (Rat × Rat) := do
+  return (← GQ.parseRat (← fStr j "atol"), ← GQ.parseRat (← fStr j "rtol"))
+
 def opHerm (j : Json) : Except String Json := do
   let fs ← parseFields j
   let a ← parseOp fs (← field j "a")
-  return exJson Json.bool a.isHermitian
+  let (atol, rtol) ← parseTol j
+  return Json.mkObj [("tol", exJson Json.bool (a.isHermitianTol atol rtol)), ("exact", exJson Json.bool a.isHermitian)]
 
 def opTermHerm (j : Json) : Except String Json := do
   let fs ← parseFields j
   let t ← parseTerm fs (← field j "t")
-  return val (.bool t.isHermitian)
+  let (atol, rtol) ← parseTol j
+  return Json.mkObj [("tol", val (.bool (t.isHermitianTol atol rtol))), ("exact", val (.bool t.isHermitian))]
 
 def opTermCtor (j : Json) : Except String Json := do
   let fs ← parseFields j
